@@ -23,7 +23,7 @@ warnings.simplefilter("ignore")
 ACT = {"nop": 0, "alarm": 1, "rm_alarm": 2, "watch": 3, "rm_watch": 4, "idle": 5, "rm_idle": 6, "sleep": 7,
        "exit": 8, "boom": 9}
 OUTCOMES = ["returned", "raised", "env_end", "blocked", "spin", "key_error"]
-FLAVOUR = {"select": 0, "zmq": 1}
+FLAVOUR = {"select": 0, "zmq": 1, "asyncio": 2}
 
 
 class EnvEnd(BaseException):
@@ -136,8 +136,10 @@ class CB:
 class Runner:
     """drives one loop object through a case (setup actions, run()) inside the virtual environment"""
 
-    def __init__(self, case, env, loop, tie_base=0, file_handles=False):
+    def __init__(self, case, env, loop, tie_base=0, file_handles=False, timer_handles=False, fd_offset=0):
         self.case, self.env, self.loop = case, env, loop
+        self.timer_handles = timer_handles    # adapters: alarm handles are host timer objects
+        self.fd_offset = fd_offset            # adapters: virtual descriptor numbers are shifted away from real ones
         self.calls = {}
         self.handles = []          # alarm handles in creation order
         self.tie_base = tie_base
@@ -154,8 +156,14 @@ class Runner:
                 cb = CB(self, "alarm", len(self.handles), a[2])
                 h = loop.alarm(float(a[1]), cb)
                 self.handles.append(h)
-                tr.append(["alarm_set", h[1] - self.tie_base, tick(h[0]), a[2]])
+                if self.timer_handles:
+                    tr.append(["alarm_set", len(self.handles) - 1, tick(h.when()), a[2]])
+                else:
+                    tr.append(["alarm_set", h[1] - self.tie_base, tick(h[0]), a[2]])
             elif k == "rm_alarm":
+                if self.timer_handles and not 0 <= a[1] < len(self.handles):
+                    tr.append(["rm_alarm", a[1], False])      # no such handle object: nothing to call
+                    continue
                 h = self.handles[a[1]] if 0 <= a[1] < len(self.handles) else (0.0, -1, None)
                 tr.append(["rm_alarm", a[1], bool(loop.remove_alarm(h))])
             elif k == "watch":
@@ -164,8 +172,8 @@ class Runner:
                     f = FakeFile(a[1])
                     self.files.setdefault(a[1], []).append(loop.watch_file(f, cb))
                 else:
-                    r = loop.watch_file(a[1], cb)
-                    if r != a[1]:
+                    r = loop.watch_file(a[1] + self.fd_offset, cb)
+                    if r != a[1] + self.fd_offset:
                         tr.append(["watch_handle_differs", repr(r)])
                 tr.append(["watch_set", a[1], a[2]])
             elif k == "rm_watch":
@@ -174,7 +182,7 @@ class Runner:
                     f = fs[-1] if fs else FakeFile(a[1])
                     tr.append(["rm_watch", a[1], bool(loop.remove_watch_file(f))])
                 else:
-                    tr.append(["rm_watch", a[1], bool(loop.remove_watch_file(a[1]))])
+                    tr.append(["rm_watch", a[1], bool(loop.remove_watch_file(a[1] + self.fd_offset))])
             elif k == "idle":
                 cb = CB(self, "idle", None, a[1])
                 h = loop.enter_idle(cb)
@@ -194,9 +202,9 @@ class Runner:
             else:
                 raise core.MachineryError("unknown action %r" % (a,))
 
-    def run(self):
+    def run(self, guard=True):
         loop, env = self.loop, self.env
-        orig = loop._loop
+        orig = loop._loop if guard else None
         budget = [len(env.steps) + 8]
 
         def guarded():
@@ -207,7 +215,8 @@ class Runner:
             orig()
             if (env.nselect, len(env.trace)) == before:
                 raise Spin()
-        loop._loop = guarded       # instance attribute: run() calls self._loop()
+        if guard:
+            loop._loop = guarded       # instance attribute: run() calls self._loop()
 
         def on_alarm(*a):
             raise Watchdog()
@@ -341,6 +350,88 @@ def run_zmq_virtual(case):
         zmq_loop.time, zmq_loop.zmq = saved
 
 
+def run_asyncio_virtual(case):
+    """AsyncioEventLoop on a real asyncio.SelectorEventLoop whose clock and selector are the virtual
+    environment: every _run_once iteration polls the scripted selector; nothing blocks"""
+    import asyncio
+    import urwid
+    env = VEnv(case["env"])
+    OFF = 1000           # virtual descriptors live at 1000+fd: the loop's self-pipe uses real small numbers
+
+    class FakeSelector(real_selectors.BaseSelector):
+        def __init__(self):
+            self._m = {}
+
+        @staticmethod
+        def _fd(fileobj):
+            return fileobj if isinstance(fileobj, int) else fileobj.fileno()
+
+        def register(self, fileobj, events, data=None):
+            fd = self._fd(fileobj)
+            if fd in self._m:
+                raise KeyError(fd)
+            self._m[fd] = real_selectors.SelectorKey(fileobj, fd, events, data)
+            return self._m[fd]
+
+        def unregister(self, fileobj):
+            return self._m.pop(self._fd(fileobj))
+
+        def modify(self, fileobj, events, data=None):
+            fd = self._fd(fileobj)
+            if fd not in self._m:
+                raise KeyError(fd)
+            self._m[fd] = real_selectors.SelectorKey(fileobj, fd, events, data)
+            return self._m[fd]
+
+        def get_key(self, fileobj):
+            return self._m[self._fd(fileobj)]
+
+        def get_map(self):
+            return self._m
+
+        def select(self, timeout=None):
+            regs = [fd - OFF for fd in self._m if fd >= OFF]
+            ready = env.select(timeout, regs)
+            return [(self._m[fd + OFF], real_selectors.EVENT_READ) for fd in ready]
+
+        def close(self):
+            self._m.clear()
+
+    class VLoop(asyncio.SelectorEventLoop):
+        def time(self):
+            return env.now
+
+    sel = FakeSelector()
+    aloop = VLoop(sel)
+    try:
+        loop = urwid.AsyncioEventLoop(loop=aloop)
+        loop.logger.disabled = True
+        r = Runner(case, env, loop, timer_handles=True, fd_offset=OFF)
+        try:
+            r.do_actions(case["setup"])
+        except Exception as e:
+            raise core.MachineryError("setup raised %r" % (e,))
+        outcome = r.run(guard=False)
+        watch = []
+        for fd, key in sel.get_map().items():
+            if fd >= OFF and key.data[0] is not None:
+                cb = key.data[0]._callback
+                watch.append([fd - OFF, getattr(cb, "__wrapped__", cb).id])
+        return {
+            "outcome": outcome,
+            "did": loop._exc is not None,
+            "now": tick(env.now),
+            "alarms": [],
+            "watch": watch,
+            "idles": [[h, cb.id] for h, cb in loop._idle_callbacks.items()],
+            "trace": env.trace,
+            # expected verdict of the model's host-specification checker (the model reports what it found)
+            "host_ok": True,
+        }
+    finally:
+        aloop.close()
+
+
 # ---------------- wire format ----------------
 def enc_action(a):
     k = a[0]
@@ -362,7 +453,7 @@ def encode_case(case):
     return l
 
 
-def decode_result(ints):
+def decode_result(ints, loop=None):
     it = iter(ints)
 
     def lst():
@@ -415,7 +506,10 @@ def decode_result(ints):
                 return {"malformed": ints[:20]}
         out["trace"] = tr
         rest = list(it)
-        if rest:
+        if loop == "asyncio":
+            # verdict of the (proved sound) checker of the host specification on the log of the host model
+            out["host_ok"] = bool(rest[0]) if rest else "missing"
+        elif rest:
             out["psock"] = rest[1:1 + rest[0]]
         return out
     except StopIteration:
@@ -426,8 +520,12 @@ def decode_result(ints):
 # oracle for the virtual runs: the property text replayed over the observed history
 # (written without looking at the model: plain dictionaries, one pass)
 # =====================================================================================
-def oracle_history(trace, outcome, dist=None):
+def oracle_history(trace, outcome, dist=None, batch_stop=False):
+    """batch_stop: the loop is a host runtime that finishes the batch of handles that are already ready before
+    it stops (asyncio, twisted, tornado): callbacks after a raise are not judged, a further poll is"""
     msgs = []
+    raised_any = []
+    clock = 0          # the latest virtual time seen in the history
     alarms = {}        # handle -> [due, state]   state in pending / called / removed
     watched = {}       # fd -> callback id currently registered
     idles = {}         # handle -> registered / removed
@@ -438,14 +536,21 @@ def oracle_history(trace, outcome, dist=None):
     for ev in trace:
         k = ev[0]
         if raised is not None:
-            if k.endswith("_call"):
+            if k.endswith("_call") and not batch_stop:
                 msgs.append(f"a callback ({k}) ran after a callback had raised: the loop did not stop")
                 break
             if k == "select":
                 msgs.append("the loop went on (select) after a callback had raised")
                 break
+        if k == "select" and isinstance(ev[3], int):
+            clock = max(clock, ev[3])
+        elif k.endswith("_call") and isinstance(ev[3], int):
+            clock = max(clock, ev[3])
         if k == "alarm_set":
-            alarms[ev[1]] = [ev[2], "pending"]
+            # an alarm registered with a due time that has already passed (negative delay): a host runtime that
+            # has already queued the handles of this iteration cannot run it before them; not judged for order
+            late_set = batch_stop and isinstance(ev[2], int) and ev[2] < clock
+            alarms[ev[1]] = [ev[2], "pending", late_set]
         elif k == "rm_alarm":
             a = alarms.get(ev[1])
             if a is not None and a[1] == "pending":
@@ -469,7 +574,7 @@ def oracle_history(trace, outcome, dist=None):
                 if isinstance(ev[3], int) and isinstance(a[0], int) and ev[3] < a[0]:
                     msgs.append("an alarm callback ran before its due time")
                 for h, b in alarms.items():
-                    if h != ev[1] and b[1] == "pending" and isinstance(b[0], int) and isinstance(a[0], int) and b[0] < a[0]:
+                    if h != ev[1] and b[1] == "pending" and not b[2] and isinstance(b[0], int) and isinstance(a[0], int) and b[0] < a[0]:
                         msgs.append("an alarm callback ran before an alarm due earlier")
                         break
                 a[1] = "called"
@@ -477,6 +582,7 @@ def oracle_history(trace, outcome, dist=None):
             idle_seen = set()
         elif k == "watch_set":
             watched[ev[1]] = ev[2]
+            unserved.discard(ev[1])      # registered anew: the new callback is served from the next poll on
         elif k == "rm_watch":
             if ev[1] in watched:
                 if not ev[2]:
@@ -516,6 +622,9 @@ def oracle_history(trace, outcome, dist=None):
                     msgs.append("the loop waits without timeout while an alarm is pending")
         elif k == "raise":
             raised = ev[1]
+            raised_any.append(ev[1])
+    if False in raised_any:
+        raised = False       # several callbacks of one batch raised: the other exception wins over ExitMainLoop
     if raised is True and outcome != "returned":
         msgs.append(f"a callback raised ExitMainLoop but run() ended with '{outcome}'")
     if raised is False and outcome != "raised":
@@ -923,7 +1032,7 @@ def run_adapter_once(case, timeout=20):
 class C13(core.Check):
     pid = "C13"
     gen_modules = []
-    model_targets = ["theories/Model/SelectLoop.vo", "theories/Model/ZmqLoop.vo"]
+    model_targets = ["theories/Model/SelectLoop.vo", "theories/Model/ZmqLoop.vo", "theories/Model/AdapterLoop.vo", "theories/Model/AdapterCheck.vo"]
     prop_file = "theories/Properties/C13.v"
     extract_v = "Extract/C13X.v"
     allowed_axioms = set()
@@ -932,8 +1041,10 @@ class C13(core.Check):
     search_budget = {"quick": 40, "thorough": 300}
     technique = ("Coq theorems (a state/history invariant preserved by every method, by callbacks that call back into the "
                  "loop and by every _loop iteration; induction over the environment trace) about hand-written executable "
-                 "models of SelectEventLoop and ZMQEventLoop; extracted-model correspondence under a virtual clock and a "
-                 "scripted selector/poller installed from outside; history oracle; contract scenarios on the real "
+                 "models of SelectEventLoop, ZMQEventLoop and of the AsyncioEventLoop wrapper over an abstract host (theorems "
+                 "relative to a host specification on the log of host answers); extracted-model correspondence under a virtual "
+                 "clock and a scripted selector/poller installed from outside (for asyncio: a real SelectorEventLoop subclass "
+                 "with virtual time() and a scripted selector); history oracle; contract scenarios on the real "
                  "asyncio/tornado/twisted/trio/zmq/select runtimes in subprocesses")
     level_text = ("PARTIAL claim.  Theorem-backed (Coq, for ALL setups, ALL callback behaviours incl. callbacks that "
                   "add/remove alarms, watches and idle callbacks or raise, and ALL environment traces of any length) for the "
@@ -951,11 +1062,28 @@ class C13(core.Check):
                   "models are hand-written and tied to select_loop.py / zmq_loop.py by an exact correspondence of the whole "
                   "observable history (every select(timeout) call with its registered and ready descriptors, every callback with "
                   "its virtual time, every return value, the outcome of run(), the final state) on exhaustive small scenarios (<= 3 "
-                  "alarms, 2 descriptors, 2 idle callbacks, every callback behaviour of a menu) and random ones.  ORACLE ONLY (no "
-                  "theorem): asyncio, tornado, twisted, trio adapters and the zmq/select loops on their real poller/selector are "
+                  "alarms, 2 descriptors, 2 idle callbacks, every callback behaviour of a menu) and random ones.  ADAPTERS, "
+                  "theorem-backed RELATIVE TO A HOST SPECIFICATION (_partial): Model/AdapterLoop.v models the AsyncioEventLoop "
+                  "wrapper (alarm -> call_later + _also_call_idle, _idle_asyncio_handle, _entering_idle, remove_alarm / watch_file / "
+                  "remove_watch_file return values, enter_idle / remove_enter_idle, _exception_handler, the _exc re-raise of run()) "
+                  "over ANY host given as a record of operations; for every host, setup, behaviour, environment and fuel, IF the "
+                  "log of the host's answers satisfies host_ok (fresh handles due at now+delay, a timer runs once / not cancelled / "
+                  "not early, monotonic clock, readers run only while registered, truthful cancelled()/remove_reader, never polls "
+                  "past a pending timer nor after stop(), run_forever returns only after stop()) THEN: alarm callbacks run once, "
+                  "not early, never after removal; remove_alarm / remove_watch_file results; watch callbacks only while "
+                  "registered; idle callbacks only while registered; no poll after a raise; a poll that can wait happens only "
+                  "after an idle round that followed the last alarm/watch callback; run() re-raises iff a callback raised the "
+                  "other exception and returns only after ExitMainLoop.  That wrapper model, with a concrete model of the asyncio "
+                  "host (exact heapq of TimerHandles compared by when, _ready queue, _run_once, add/remove_reader, stop), is tied "
+                  "by exact correspondence to asyncio_loop.py running on a REAL asyncio.SelectorEventLoop whose clock and selector "
+                  "are the virtual environment.  The hypothesis host_ok is CHECKED on every case of the correspondence by an executable "
+                  "checker (hostok_b, proved sound in Coq) evaluated by the extracted model on the log of its asyncio host: a failing "
+                  "verdict shows up as a correspondence difference, so for every tested run the contract is proved for the model's "
+                  "run (asyncio_checked_run_contract_partial).  NOT proved: that the asyncio host model satisfies host_ok on ALL "
+                  "runs (asyncio_host_meets_spec_full is stated only); alarm ORDER for adapters (host property; oracle only).  ORACLE "
+                  "ONLY (no theorem): tornado, twisted, trio adapters and asyncio/zmq/select on their real poller/selector are "
                   "contract-tested on the real runtimes (18 scenarios each: order, once-ness, not-before-due, removal results, "
-                  "same-batch sibling removal, overdue order, many out-of-order alarms with removals, descriptor 0, idle-after-callback, exception propagation, run() called again after an exception); one known finding remains "
-                  "for TrioEventLoop (alarms overdue at the same time run in arbitrary order); glib is not installed "
+                  "same-batch sibling removal, overdue order, many out-of-order alarms with removals, descriptor 0, idle-after-callback, exception propagation, run() called again after an exception); no known finding is left; glib is not installed "
                   "and not covered.")
     level_note = ("Trusted: Coq kernel; ExtrOcamlBasic extraction + OCaml driver; the hand-written models (validated by the "
                   "correspondence, not proved against CPython); the virtual environment (Python VEnv/FakeSel/FakePoller and "
@@ -974,7 +1102,8 @@ class C13(core.Check):
     trusted_base = [
         "Coq 8.16.1 kernel (coqc; vm_compute only for closed examples and the refutation witness)",
         "extraction: ExtrOcamlBasic only; Z stays a Coq datatype; OCaml 4.13.1; tools/driver/driver.ml",
-        "hand-written models Model/SelectLoop.v and Model/ZmqLoop.v (validated by this correspondence, not proved against Python)",
+        "hand-written models Model/SelectLoop.v, Model/ZmqLoop.v and Model/AdapterLoop.v (validated by this correspondence, not proved against Python)",
+        "adapter theorems: the host specification host_ok (Proofs/AdapterLoopSpec.v) is a HYPOTHESIS; the asyncio host model is tied to the real asyncio loop by correspondence only",
         "the virtual environment: VEnv / FakeSel / FakePoller in harness/props/c13.py and do_select / zdo_select in the models",
         "Python oracles in harness/props/c13.py (oracle_history, oracle_adapter)",
         "the real runtimes for the adapter scenarios (asyncio, tornado 6.5, twisted 26.4, trio 0.34, pyzmq 27)",
@@ -984,7 +1113,8 @@ class C13(core.Check):
         "alarm handles passed to remove_alarm are handles returned by alarm() (identified by their tie-break number)",
         "callbacks are deterministic functions of (their identity, how often they were called before)",
         "the models cover one run() per loop object (run() called again after an exception / ExitMainLoop is covered by the adapter scenarios rerun_* on the real runtimes only); signals / InterruptedError / run_in_executor / watch_queue are not modelled",
-        "adapters (asyncio, tornado, twisted, trio) are covered by scenarios on the real runtimes only (no theorem); glib not covered",
+        "adapter theorems assume the host specification host_ok for the run at hand; fewer than 100 cancelled timers (asyncio rebuilds its heap beyond that); negative alarm delays are not judged for order on host runtimes",
+        "tornado, twisted, trio are covered by scenarios on the real runtimes only (no theorem); glib not covered",
     ]
 
     # corpus: virtual cases go through the correspondence; adapter cases (regressions of repaired
@@ -1003,13 +1133,15 @@ class C13(core.Check):
             return run_select_virtual(case)
         if case["loop"] == "zmq":
             return run_zmq_virtual(case)
+        if case["loop"] == "asyncio":
+            return run_asyncio_virtual(case)
         raise core.MachineryError("unknown loop " + str(case.get("loop")))
 
     def encode(self, case):
         return encode_case(case)
 
     def decode(self, case, ints):
-        return decode_result(ints)
+        return decode_result(ints, case.get("loop"))
 
     def oracle(self, case, res):
         if "adapter" in case:
@@ -1017,7 +1149,8 @@ class C13(core.Check):
             return hard + soft
         if "trace" not in res:
             return []
-        return oracle_history(res["trace"], res["outcome"], getattr(self, "_dist", None))
+        return oracle_history(res["trace"], res["outcome"], getattr(self, "_dist", None),
+                              batch_stop=(case.get("loop") == "asyncio"))
 
     def nontrivial(self, case, res):
         return any(e[0].endswith("_call") for e in res.get("trace", []))
@@ -1172,7 +1305,7 @@ class C13(core.Check):
         return {"loop": loop, "setup": setup, "beh": beh, "env": [[late, []]] * (2 * n + 8)}
 
     def loops(self):
-        return ["select", "zmq"]
+        return ["select", "zmq", "asyncio"]
 
     def cases(self, rng, tier):
         for loop in self.loops():
